@@ -2,6 +2,7 @@ package nitrocheck
 
 import (
 	"fmt"
+	"os"
 	"sort"
 	"testing"
 
@@ -79,6 +80,24 @@ func TestC09(t *testing.T) {
 		cfg := genCfg(t, -1, false)
 		w := NewWorld(t, cfg, st)
 		defer w.Teardown()
+		// a third of the cases run on an instance restored from a backup (its items carry version 0)
+		if rapid.IntRange(0, 2).Draw(t, "restored") == 0 {
+			w.bulkPut(t)
+			w.NewSnapshot()
+			dir := ScratchDir()
+			defer os.RemoveAll(dir)
+			if err := w.Store(0, dir, 2, 0, nil); err != nil {
+				t.Fatalf("setup: StoreToDisk: %v", err)
+			}
+			w2, err := LoadWorld(t, cfg, dir, 2, rapid.Bool().Draw(t, "writersbefore"), st, w)
+			defer w2.Teardown()
+			if err != nil {
+				w2.Failf("load-error-after-successful-store", "LoadFromDisk: %v", err)
+			}
+			w.Shutdown()
+			w = w2
+			w.flag("restored-instance")
+		}
 		var (
 			it         *nitro.Iterator
 			itSnap     *snapRec
@@ -233,6 +252,9 @@ func TestC09(t *testing.T) {
 		rep := w.Shutdown()
 		if cfg.MM && !rep.Clean() {
 			w.Failf("alloc-report", "allocator report after Close: %v", rep)
+		}
+		if w.flags["restored-instance"] {
+			st.Class("restored-instance", 1)
 		}
 		st.Case(w.Desc(), nontrivial)
 		st.AddExtra("iterator-steps", int64(steps))
